@@ -18,9 +18,9 @@ the target), `atomicReplace` the repaired code (write `p.tmp`, `os.replace`, rem
 suffix; this is what /repo does since `afb726d`).  The full statements are proved for
 `atomicReplace`; for `inPlace` they are FALSE (machine-checked witnesses below) and hold under
 explicit hypotheses (`_partial`).  A second switch `Cfg.sweep` says whether `delete` reaches
-`_delete` also when only a leftover of an interrupted save exists (proposed repair) or only when
-`_has_saved_content` (the tree as it is:
-`Cfg.current = ⟨atomicReplace, false⟩`); the durability theorems hold for both values, the full
+`_delete` also when only a leftover of an interrupted save exists (the tree as it is since
+`1e4658d`: `Cfg.current = ⟨atomicReplace, true⟩`) or only when `_has_saved_content` (before:
+`Cfg.unswept = ⟨atomicReplace, false⟩`); the durability theorems hold for both values, the full
 delete statement only with `sweep` (witness `C19_delete_leftover_witness`).
 
 Classes are `Cls` (identity of the class object, module+qualname, ancestors); the class-check
@@ -275,24 +275,24 @@ theorem C19_leftover_counting_poisons_autoload :
 def C19DeleteStatement (cfg : Cfg) : Prop :=
   ∀ (cls : Cls) (ops : List Op), deleteFS cfg (run cfg (.init cls) ops).fs = FS.init
 
-/-- with the delete repair (`_delete` is reached when a final-name file OR a leftover exists) — in fact from any
+/-- the tree as it is (`_delete` is reached when a final-name file OR a leftover exists) — in fact from any
 file-system state -/
-theorem C19_delete_cleans_full : C19DeleteStatement Cfg.swept :=
+theorem C19_delete_cleans_full : C19DeleteStatement Cfg.current :=
   fun _ _ => delete_all_sweep .atomicReplace _ (Or.inl rfl)
 
 /-- the pinned in-place save never creates temporaries, so its delete leaves nothing either -/
 theorem C19_delete_cleans_full_pinned (sw : Bool) : C19DeleteStatement ⟨.inPlace, sw⟩ :=
   fun cls ops => delete_all_noTmp _ _ (noTmp_run sw (.init cls) ops ⟨rfl, rfl⟩)
 
-/-- the tree as it is: a first save torn mid-write leaves `<name>.pckl.tmp`; `delete` never reaches `_delete`
-(`_has_saved_content` is false), the leftover and its directory stay -/
-theorem C19_delete_leftover_witness : ¬ C19DeleteStatement Cfg.current := by
+/-- before `1e4658d` (finding KF-C19-5): a first save torn mid-write leaves `<name>.pckl.tmp`; `delete` never
+reaches `_delete` (`_has_saved_content` is false), the leftover and its directory stay -/
+theorem C19_delete_leftover_witness : ¬ C19DeleteStatement Cfg.unswept := by
   intro h
   have := h Cls.graph [.crash .ok 1 3]
   revert this
   decide
 
-/-- the tree as it is cleans completely whenever a final-name file exists or no leftover is around -/
+/-- with or without the sweep: delete cleans completely whenever a final-name file exists or no leftover is around -/
 theorem C19_delete_cleans_partial (sw : Bool) (fs : FS)
     (h : hasSaved fs = true ∨ (fs.pcklTmp = .absent ∧ fs.cpcklTmp = .absent)) :
     deleteFS ⟨.atomicReplace, sw⟩ fs = FS.init := by
@@ -335,10 +335,10 @@ example : autoAttempt (run Cfg.current (.init Cls.graph) []).fs = false ∧
 -- both suffixes present (a save interrupted between `os.replace` and the removal of the other suffix)
 example : (run Cfg.current (.init Cls.graph) [.save .pickleFails 1, .crash .ok 2 5]).fs =
     ⟨true, .good Cls.graph 2, .good Cls.graph 1, .absent, .absent⟩ := by decide
--- delete: the repaired delete differs from the current one exactly on leftover-only states
-example : deleteFS Cfg.current ⟨true, .absent, .absent, .torn, .absent⟩ = ⟨true, .absent, .absent, .torn, .absent⟩ ∧
-    deleteFS Cfg.swept ⟨true, .absent, .absent, .torn, .absent⟩ = FS.init ∧
-    deleteFS Cfg.current ⟨true, .good Cls.graph 1, .absent, .torn, .absent⟩ = FS.init := by decide
+-- delete: the current delete differs from the one before `1e4658d` exactly on leftover-only states
+example : deleteFS Cfg.unswept ⟨true, .absent, .absent, .torn, .absent⟩ = ⟨true, .absent, .absent, .torn, .absent⟩ ∧
+    deleteFS Cfg.current ⟨true, .absent, .absent, .torn, .absent⟩ = FS.init ∧
+    deleteFS Cfg.unswept ⟨true, .good Cls.graph 1, .absent, .torn, .absent⟩ = FS.init := by decide
 -- delete on a populated directory
 example : deleteFS ⟨.inPlace, false⟩ ⟨true, .good Cls.graph 1, .torn, .absent, .absent⟩ = FS.init := by decide
 -- the two variants differ exactly where the defect is
